@@ -79,3 +79,24 @@ def replay(ctx, maxlen):
     ctx.cov['groupinfix_replayed'] = n
     ctx.cov['groupinfix_disagreements'] = bad
     return n, bad
+
+
+def assignment_texts(ctx, n, seed, rng):
+    """token-kind sequences of GroupInfix.tla (assignment-style post, up to 14 tokens) spelled as SQL: `:=` as the middle
+    token, variables / numbers as operands, keywords and commas as non-operands.  The real pass (group_assignment) then
+    runs inside parse() and the tree goes through the C02/C03 clauses."""
+    # generator use only: the safety invariants are checked by the exhaustive runs (they do NOT all hold for the assignment
+    # post at this length - DESIGN 8 #16 - which is exactly why these sequences are interesting inputs)
+    c = '\n'.join(l for l in cfg(14, True, 'semi', True).splitlines() if not l.startswith('INVARIANT') or 'PrintDone' in l) + '\n'
+    res = tlc.run(ctx.workdir, 'GroupInfix', c, workers=1, label='GroupInfix_assign_sim', coverage=False, timeout=900,
+                  simulate='num=%d' % n, depth=34, seed=seed)
+    ctx.add_tlc(res, 'GroupInfix token sequences (assignment post, len<=14) for parse inputs')
+    out, seen = [], set()
+    for p in res.printed:
+        k = tuple(p['inp'])
+        if k in seen or len(k) < 5:
+            continue
+        seen.add(k)
+        sp = {'v': ['@a', 'b', '1', '@i', 'x2'], 'x': ['select', ',', 'from', 'set'], 'm': [':='], 'w': [' ', '  '], 's': [';']}
+        out.append(' '.join(rng.choice(sp[t]) for t in k))
+    return out
